@@ -86,6 +86,7 @@ def run(ck):
     ck.rule("R3", "each operator reaches the C operation of its reference meaning", floor=22)
     ck.rule("R4", "signed division on 32/64-bit operands excludes INT_MIN / -1", floor=4)
     ck.rule("R5", "native-only helpers are guarded by the operand width", floor=8)
+    _bignum_rules(ck)
     ck.rule("TC", "the translation memo table is private to the translator object, keyed by the expression itself, and filled by the class's own handler", floor=4)
     from rules._transcache import translator_cache_rules
     translator_cache_rules(ck, "TC")
@@ -375,3 +376,50 @@ def _parity_table(ck):
         raise AnalysisError("parity_table initialiser not readable from the clang AST")
     bad = [k for k in range(256) if vals[k] != (1 if bin(k).count("1") % 2 == 0 else 0)]
     return (not bad), "parity_table entries %s differ from 'even number of set bits -> 1'" % bad[:8]
+
+
+def _bignum_rules(ck):
+    """R6: the big-number multiplication used for operands wider than 64 bits is the schoolbook product truncated to the array: the
+    partial product of words i and j is accumulated exactly when i + j < BN_ARRAY_SIZE (its low word is inside the array; the high
+    word that may fall outside is dropped by the shift).  Stated on the tests that dominate the accumulation in bignum_mul, as linear
+    forms over the clang AST (loop bounds and guards alike, locals expanded)."""
+    ck.rule("R6", "bignum_mul accumulates the partial product (i, j) exactly when i + j < BN_ARRAY_SIZE", floor=1)
+    tu = cast.load(ck.repo, "miasm/jitter/bn.c")
+    f = tu.func("bignum_mul")
+    N = tu.macro_int("BN_ARRAY_SIZE")
+    if N is None:
+        raise AnalysisError("bn.c: BN_ARRAY_SIZE is not a constant")
+    cfg = f.cfg()
+    ldefs = cast.local_defs(f)
+    acc = [nd for nd in cfg.nodes if any(cast.callee(c) == "bignum_add" and "row" in cast.text_names(c) and "tmp" in cast.text_names(c) for c in cast.node_calls_c(nd))]
+    if not acc:
+        acc = [nd for nd in cfg.nodes if any(cast.callee(c) == "bignum_add" for c in cast.node_calls_c(nd))][:1]
+    ck.need(acc, "bignum_mul: accumulation of a partial product not found")
+    sn = acc[0]
+    bounds = []     # (coefficients over loop counters, constant): the test says  sum + const < 0
+    for did in cfg.dominators()[sn.id]:
+        dn = cfg.nodes[did]
+        if dn.kind != "test":
+            continue
+        av = lambda x, did=did: x.id == did
+        tsucc = [x for (x, lab) in cfg.succ[did] if lab is True]
+        fsucc = [x for (x, lab) in cfg.succ[did] if lab is False]
+        on_true = bool(tsucc) and (tsucc[0] == sn.id or cfg.can_reach(tsucc[0], sn.id, avoid=av))
+        on_false = bool(fsucc) and (fsucc[0] == sn.id or cfg.can_reach(fsucc[0], sn.id, avoid=av))
+        for pol in ([True] if on_true and not on_false else []) + ([False] if on_false and not on_true else []):
+            lr = cast.c_less_than(dn.ast, pol, ldefs)
+            if lr is None:
+                continue
+            (lt, lc), (rt, rc) = lr
+            d = dict(lt)
+            for k_, v_ in rt:
+                d[k_] = d.get(k_, 0) - v_
+            d = dict((k_, v_) for k_, v_ in d.items() if v_)
+            bounds.append((d, lc - rc))
+    both = [(d, c) for d, c in bounds if d == {"i": 1, "j": 1}]
+    exact = any(c == -N for _d, c in both)
+    stricter = [c for _d, c in both if c > -N]
+    ck.ob("R6", "bignum_mul:partial-products", exact and not stricter, "miasm/jitter/bn.c",
+          "the accumulation of a[i] * b[j] is guarded by %s (as `i + j + c < 0`); the product truncated to %d words needs exactly i + j < %d: %s"
+          % (sorted(c for _d, c in both), N, N, "columns whose low word is still inside the array are skipped - the top words of the product are wrong"
+             if stricter else "no test on i + j bounds the column"))
